@@ -214,7 +214,13 @@ func (w *World) apply(ds *Doc, op sim.Op, o *Obs) {
 		opts := markdown.DefaultOptions()
 		opts.EnableGFM, opts.EnableTables, opts.EnableTaskList, opts.EnableMath = op.Int(0)&1 != 0, op.Int(0)&2 != 0, op.Int(0)&4 != 0, op.Int(0)&8 != 0
 		opts.GenerateTOC = op.Int(0)&16 != 0
-		d2, err := markdown.NewConverter(opts).ConvertString(op.Str(0), opts)
+		// one Converter per world, as a program that converts several sources (or BatchConvert) uses it
+		conv, _ := w.Extra["md-converter"].(*markdown.Converter)
+		if conv == nil {
+			conv = markdown.NewConverter(markdown.DefaultOptions())
+			w.Extra["md-converter"] = conv
+		}
+		d2, err := conv.ConvertString(op.Str(0), opts)
 		o.Err = err
 		if err != nil || d2 == nil {
 			return
